@@ -308,7 +308,7 @@ def checkCase (j : Json) : Except String Verdict := do
               else if kind == "expired-refresh" then some ⟨toB "ann@x.io", "at-code", "rt-code", 3000, -10⟩
               else if kind == "expired-lifetime" then some ⟨toB "ann@x.io", "at-code", "rt-code", -10, 600⟩ else none }
             -- C02 / C08 (from the outputs alone): the code key and nothing else opens a code
-            if (kind == "otherkey" || kind == "cookiekey" || kind == "garbage" || kind == "jarcookie") && status == 200 then
+            if (kind == "otherkey" || kind == "cookiekey" || kind == "garbage" || kind == "jarcookie" || kind == "genuine-respelled" || kind == "genuine-trailing-lf") && status == 200 then
               v := v.mons ["C08", "C02"] "redeem_opens_only_own_key" idx s!"a value sealed as '{kind}' was redeemed"
             if kind == "genuine" && status != 200 then
               v := v.mons ["C02", "C08"] "round_trip" idx s!"a code sealed under the configured session key was refused with {status}"
